@@ -40,6 +40,8 @@ func runReader(limit int, stream []byte, ops []rdOp) (res []string, layout []str
 		id   int
 	}
 	allocs := map[uintptr]allocT{}
+	var keepAlive [][]byte
+	defer func() { _ = len(keepAlive) }()
 	var views []view
 	lay := func() string {
 		if r.Msg == nil {
@@ -49,6 +51,9 @@ func runReader(limit int, stream []byte, ops []rdOp) (res []string, layout []str
 			// a zero-capacity slice keeps no usable position inside its allocation
 			return sx(-1, 0, len(r.Msg), 0)
 		}
+		// every block ever seen stays referenced: a block the Reader has dropped must not be collected and its
+		// address range handed out again, or two blocks would be taken for one (they are told apart by where they end)
+		keepAlive = append(keepAlive, r.Msg)
 		addr := uintptr(unsafe.Pointer(unsafe.SliceData(r.Msg)))
 		end := addr + uintptr(cap(r.Msg))
 		a, ok := allocs[end]
